@@ -474,6 +474,7 @@ class Extraction:
                     self.count("R-bytes", "%s:%d %s" % (S.rel, line_of(S.src, t.start), t.text))
 
         # token-sequence replacements (R-shim / R-async / R-mono are expressed this way)
+        claimed = set()  # token indices already rewritten by an earlier rule (rules apply in file order)
         for rep in self.spec.get("replace", []):
             if "only" in rep and it.name not in rep["only"]:
                 continue
@@ -481,7 +482,9 @@ class Extraction:
             n = len(pat)
             i = it.lo
             while i + n - 1 <= it.hi:
-                if [t.text for t in toks[i:i + n]] == pat and not any(a <= i <= b for a, b in removed_spans):
+                if [t.text for t in toks[i:i + n]] == pat and not any(a <= i <= b for a, b in removed_spans) \
+                        and not any(x in claimed for x in range(i, i + n)):
+                    claimed.update(range(i, i + n))
                     edits.append((toks[i].start, toks[i + n - 1].end, rep["to"]))
                     self.count(rep.get("rule", "R-shim"),
                                "%s:%d `%s` -> `%s`" % (S.rel, line_of(S.src, toks[i].start), rep["from"], rep["to"]))
